@@ -22,7 +22,7 @@ import c04deltas as CD
 
 sys.path.insert(0, os.path.join(vlib.VERIF, "tools", "translate"))
 
-THEOREMS = ["C04_doc_literals_lex", "C04_errors_or_sentence", "C04_check_all_sound", "C04_check_discriminates"]
+THEOREMS = ["C04_doc_literals_lex", "C04_errors_or_sentence", "C04_check_all_sound", "C04_check_discriminates", "C04_complete_partial"]
 TRANSLATORS = ["t_tokens", "t_lextables", "t_grammar", "t_ast", "t_docgrammar"]
 TRUSTED = [
     "Coq 8.16.1 kernel incl. vm_compute for the reflective obligations over the generated grammar program / documented grammar / accessor table",
